@@ -450,3 +450,72 @@ Definition circuit_neg (k : kind) (n a : Z) : kind * Z * Z := (k, n, instr_sem O
 Definition fold (op : binop) (l r : cval) : res (kind * Z * Z) :=
   do c <- evalConst op l r; Ok (seen c).
 Definition is_panic {A} (r : res A) : bool := match r with Panic _ => true | _ => false end.
+
+(* ---------- the class of inputs on which folding is proved right ----------
+   [fold_ok_class op k n a b]: operator, operand kind/width and the two operand
+   VALUES (a, b signed integers; for shifts b is the literal count), operands
+   written T(a) for a >= 0 and -T(|a|) for a < 0.  This one predicate is the
+   hypothesis of the positive theorems (FoldProof.fold_ok_class_sound) and is
+   evaluated by run_c12 for every harness case; the harness computes the same
+   predicate in Go, the correspondence check compares the two on every case,
+   and any oracle failure inside the class is reported under a distinct key. *)
+Definition reprb (k : kind) (n a : Z) : bool :=
+  match k with
+  | KUint => (0 <=? a) && (a <? 2 ^ n)
+  | KInt => (- 2 ^ (n - 1) <=? a) && (a <? 2 ^ (n - 1))
+  | KBool => (a =? 0) || (a =? 1)
+  end.
+(* container width Generator.Constant gives a value of bit length mb *)
+Definition contb (mb : Z) : Z := if 64 <? mb then mb else if 32 <? mb then 64 else 32.
+(* bit length / container of the literal a >= 0 *)
+Definition blen (a : Z) : Z := if a <? 2 ^ 64 then Z.max 1 (Z.log2 a + 1) else bitlen_abs a.
+Definition cont (a : Z) : Z := contb (blen a).
+(* negative intN constants are two's complement at the declared width only for
+   N = 32, N = 64 and N > 64 *)
+Definition canon (n a : Z) : bool := (0 <=? a) || (n =? 32) || (n =? 64) || (64 <? n).
+Definition contv (n a : Z) : Z := if a <? 0 then n else cont a.
+(* Int64() of the container reads the value exactly *)
+Definition cmp_exact (n a : Z) : bool :=
+  ((a <? 0) && (n <=? 64)) || ((0 <=? a) && (a <? 2 ^ 31)) || ((2 ^ 32 <=? a) && (a <? 2 ^ 63)).
+Definition count_ok (b : Z) : bool := (0 <=? b) && (b <? 2 ^ 31).
+
+Definition fold_ok_class (op : binop) (k : kind) (n a b : Z) : bool :=
+  match k with
+  | KBool =>
+      match op with
+      | OEq | ONeq | OLand | OLor => (n =? 1) && reprb KBool 1 a && reprb KBool 1 b
+      | _ => false
+      end
+  | _ =>
+      (0 <? n) && reprb k n a && canon n a &&
+      (if is_shift op then count_ok b else reprb k n b && canon n b) &&
+      (if n <=? 64 then
+         match op with
+         | OSub | OMul | OBand | OBor | OBxor | OBclr | OLsh => true
+         | OAdd =>
+             let M := Z.max (contv n a) (contv n b) in
+             (M =? n) || ((0 <=? a) && (0 <=? b) && (a <? 2 ^ 63) && (b <? 2 ^ 63) &&
+                          (a + b <? 2 ^ (Z.min M n)))
+         | ODiv | OMod => (0 <=? a) && (0 <=? b) && (a <? 2 ^ 63) && (b <? 2 ^ 63)
+         | ORsh => (0 <=? a) && (a <? 2 ^ 63)
+         | OLt | OLe | OGt | OGe | OEq | ONeq => cmp_exact n a && cmp_exact n b
+         | OLand | OLor => false
+         end
+       else
+         match op with
+         | OBand | OBor | OBxor | OBclr | OMul | OLsh => true
+         | OAdd | OSub => n - 1 <=? Z.max (contv n a) (contv n b)
+         | ORsh => 0 <=? a
+         | OLt | OLe | OGt | OGe | OEq | ONeq => cmp_exact n a && cmp_exact n b
+         | ODiv | OMod | OLand | OLor => false
+         end)
+  end.
+(* ... and the folded constant has exactly the declared width, so that every
+   consumer (not only "returned as is") sees what the circuit would give *)
+Definition fold_exact_class (op : binop) (k : kind) (n a b : Z) : bool :=
+  fold_ok_class op k n a b && (is_cmp op || is_logic op || (n =? 32) || (64 <=? n)).
+(* unary minus of T(a) / -T(|a|) *)
+Definition neg_ok_class (k : kind) (n a : Z) : bool :=
+  intlike k && (0 <? n) && reprb k n a && canon n a.
+Definition neg_exact_class (k : kind) (n a : Z) : bool :=
+  neg_ok_class k n a && ((n =? 32) || (64 <=? n)).
